@@ -876,7 +876,12 @@ func streamLease(t *testing.T, st *Stats) {
 }
 
 func TestC04(t *testing.T) {
-	runCore(t, coreCfg{prop: "C04", extra: streamLease, profile: profC04, quickSeeds: 40, thoroughSeeds: 1600, nops: 100})
+	runCore(t, coreCfg{prop: "C04", extra: func(t *testing.T, st *Stats) {
+		streamLease(t, st)
+		if !hasConcrete(st.Violations) {
+			backoffSweep("C04")(t, st)
+		}
+	}, profile: profC04, quickSeeds: 40, thoroughSeeds: 1600, nops: 100})
 }
 
 // orderedStream: ordering on the streaming path — a deadline extension sent on the stream for the first
